@@ -137,9 +137,7 @@ func (ex *Exec) verifyFunc(fn *ssa.Function, c *Contract) {
 		}
 	}
 	for _, r := range c.Requires {
-		if ex.active(r.Props) {
-			ex.specialise(st, r.Expr)
-		}
+		ex.specialise(st, r.Expr)
 	}
 	var args []Val
 	for i, p := range fn.Params {
@@ -153,9 +151,6 @@ func (ex *Exec) verifyFunc(fn *ssa.Function, c *Contract) {
 	fr0 := &Frame{fn: fn, contract: c, depth: 0, params: ex.topParams}
 	env := &Env{ex: ex, st: st, old: ex.entry, vars: map[string]Val{}, fr: fr0, pkg: ex.pkgOfFrame(fr0)}
 	for _, r := range c.Requires {
-		if !ex.active(r.Props) {
-			continue
-		}
 		t, err := ex.evalSpecBool(r.Expr, env)
 		if err != nil {
 			ex.errors = append(ex.errors, fmt.Sprintf("requires %s: %v", r.Label, err))
@@ -182,7 +177,7 @@ func (ex *Exec) verifyFunc(fn *ssa.Function, c *Contract) {
 			}
 		}
 		for _, e := range c.Ensures {
-			if !ex.active(e.Props) || e.Kind == "assumes" {
+			if e.Kind == "assumes" {
 				continue
 			}
 			t, err := ex.evalSpecBool(e.Expr, post)
